@@ -19,7 +19,7 @@ def run(ctx):
                           ("MCPool_drops.cfg", "settled / dependent / expiring txs, 3 heads, lifetime and blocklist drops"),
                           ("MCPool_sameid.cfg", "one tx signed twice (same id, two hashes, two payers)"),
                           ("MCPool_fork.cfg", "a legacy and a dynamic-fee tx across the GALACTICA fork (3 heads)"),
-                          ("MCPool_thorough.cfg", "3 txs, 2 payers, <= 2 objects per tx")):
+                          ("MCPool_thorough.cfg", "3 txs, 2 payers, <= 2 objects per tx, one slot per account")):
             ctx.tlc_must_hold("net", "MCPool", cfg=cfg, workers=8, timeout=3000, heap="8g", label=what)
 
     # 2. the code AS IT IS (promote checks presence by hash): expected-violation config, kept as a regression.
